@@ -9,7 +9,8 @@ budget); the passes on abstract token lists (vt/harness/c01_passes.py, c01_passt
 Search: grammar/mutation strings over the whole wikitext alphabet x 12 languages x template universes, plus the deterministic
 families `attrnum` (number-like Unicode attribute values x every construct that takes attributes), `quoteruns` (10..60 apostrophe
 runs on one line), `reparse` (wiki databases whose pages re-parse themselves through every re-parsing tag extension, direct and mutual cycles;
-`reparse-fanout` with >= 2 recursive edges per page) and `longdigits` (a 4301-digit string at every numeric position); oracle = parse_string returns an Article, raises nothing, stays within the CPU budget C0 + C*n^2 + Cdb*ndb (ndb = size of the wiki database)."""
+`reparse-fanout` with >= 2 recursive edges per page), `longdigits` (a 4301-digit string at every numeric position) and `uniqmarkers`
+(strip markers \\x7fUNIQ-tag-n-hex-QINU\\x7f - unknown, in the table of the parse, ill-formed, truncated, nested - at every position class); oracle = parse_string returns an Article, raises nothing, stays within the CPU budget C0 + C*n^2 + Cdb*ndb (ndb = size of the wiki database)."""
 import collections
 import concurrent.futures as cf
 import json
@@ -182,6 +183,9 @@ def gen_inputs(run):
         if "<imagemap" in raw and not OPEN_DEFECTS and len(raw) > G.INT_MAX_STR_DIGITS:
             continue        # left out only with VERIF_C01_OPEN_DEFECTS=0
         add(raw, G.LANGS[i % 12], G.TEMPLATE_UNIVERSES[2] if "{{" in raw else None, "longdigits")
+    # strip markers (\x7fUNIQ-tag-n-hex-QINU\x7f): unknown / in-table / ill-formed / truncated / nested variants x every position class
+    for i, (raw, db, _desc) in enumerate(G.uniq_family(run.tier)):
+        add(raw, G.LANGS[i % 12], db, "uniqmarkers")
     if OPEN_DEFECTS:
         # fan-out >= 2 cycles: 2^40 nested parses on a tree without a total bound on the nested work (core.MAX_NESTED_WORK)
         for i in range(60 if quick else 600):
@@ -249,7 +253,7 @@ def search(run, src):
         elif len(run.samples) < 5 and c["kind"] in ("grammar", "deep") and len(c["raw"]) < 160:
             run.sample({"raw": c["raw"], "lang": c["lang"], "templates": sorted(c["db"]) if c["db"] else None, "cpu_s": r["cpu"]})
     run.obligation("search-harness-complete", missing == 0, "%d inputs without a result" % missing)
-    run.obligation("search-not-cut-short", skipped == 0, "%d inputs skipped after a worker saw 25 over-budget inputs with one fingerprint" % skipped)
+    run.obligation("search-not-cut-short", skipped == 0, "%d inputs skipped after a worker saw 10 over-budget inputs with one fingerprint" % skipped)
     byid = {c["id"]: c for c in cases}
     for fp in sorted(by_fp):
         _, cid = min(by_fp[fp])
@@ -286,7 +290,23 @@ def check(run):
                 "each maximal digit run of each construct of a pool of ~260 constructs (attribute values of every attribute context, image options, imagemap "
                 "coordinates, gallery/pages/table/list/font attributes, entities, magic links, timeline scripts, ~120 parser-function / template argument "
                 "positions, short expressions with long results such as 10^4500) replaced one at a time - this family is EXEMPT from the 400-character cap of "
-                "the quick tier (inputs of 4.3-5 k characters, the thorough bound) + random inputs: recursive grammar (sections, lists, tables, HTML blocks, extension elements, styles, links, refs, "
+                "the quick tier (inputs of 4.3-5 k characters, the thorough bound) + strip markers (family uniqmarkers): the DEL-delimited markers "
+                "\\x7fUNIQ-<tag>-<n>-<hex>-QINU\\x7f that uniq.Uniquifier substitutes for extension tags, as INPUT (forged, or pasted from rendered "
+                "output): 46 variants - well-formed but not in the table of the parse (foreign random string, every tag name, counters 0 / 00 / 20 "
+                "digits, short and long hex), with the process's own random string (the harness fixes it) and a counter inside the table (names "
+                "another real tag of the text, or the very tag the marker sits in) or beyond it, ill-formed (Unicode-digit counter that Python's \\d "
+                "accepts and the scanner does not, upper-case hex / name, empty fields), truncated (no leading / trailing DEL, head, tail, DEL alone), "
+                "nested (marker inside the name / hex field of a marker, adjacent, sharing a DEL, an in-table marker inside an unknown one, a tag "
+                "inside a marker) - x 89 position classes (plain text, heading, list, definition, pre line, comment, entity, table cell / table, row, "
+                "cell, caption attributes, HTML attribute value double / single / un-quoted, style value, attribute name, valueless attribute, tag "
+                "name, closing tag, table / list / heading / font attributes, unclosed tag, attributes and bodies of every extension tag, link target "
+                "/ label / anchor / namespace, image caption / options / name, URL and label of external links, quotes, magic words, template "
+                "argument / argument name / template name, parameters, a tag with the marker in its attributes inside a template argument, ~30 "
+                "parser-function argument positions, #tag body / attribute / name, and wiki pages whose text holds the marker or passes an argument "
+                "into an HTML / extension tag attribute) x {text without, text with real extension tags in front}; quick: one representative of each "
+                "variant group meets every class, the other variants rotate (each meets >= 1/3 of the classes); thorough: the full product; "
+                "markers and marker-carrying attributes are also alphabet tokens of the random kinds, and a random kind `uniq` draws marker fields "
+                "and 1..3 position classes amid grammar text + random inputs: recursive grammar (sections, lists, tables, HTML blocks, extension elements, styles, links, refs, "
                 "templates), 1-4 random mutations of grammar outputs, token soup, one construct nested 5..40 deep, short units repeated, random attribute constructs, random lines of 10..60 quote runs, random self-re-parsing wikis; "
                 "each with one of 12 languages and one of 9 template universes (none, empty, or pages incl. self-recursive ones through ref/poem/gallery/pages); "
                 "syntactic nesting measure <= 40; distinct = distinct (raw, lang, universe); non-trivial = contains a markup character")
@@ -298,6 +318,8 @@ def check(run):
                    "ValueError outside range(0x110000)",
                    "the harness's wiki database double (production interface of nuwiki.Adapt over a dict of pages)",
                    "CPU time as reported by time.process_time / ITIMER_VIRTUAL",
+                   "uniq.Uniquifier.random_string (8 bytes of os.urandom per process) is set to a fixed value by the search harness: the state of a "
+                   "process whose urandom call returned those bytes; needed so that inputs can hold markers that ARE in the table of the parse",
                    "pass loop models: abstraction of tokens to the kinds the loops branch on; functional encoding of two aliasing sites "
                    "(the open-section stack of ParseSections, the styles list of ParseSingleQuote); compute_path as a parameter of the "
                    "ParseSingleQuote model (replayed in call order in the tie) — all covered by the differential runs",
@@ -306,7 +328,8 @@ def check(run):
                    "cover everything these loops branch on (type, blocknode, tagname, rawtagname, text None / blank / column mark); ParsePreformatted's "
                    "tree walk (get_token_walker) is not modelled, only run() on one list"]
     run.assumptions = ["inputs are sequences of Unicode scalar values (no lone surrogates in the raw text), length <= 400 (quick) / 5000 (thorough); "
-                       "the deterministic quote-run lines are up to 660 characters and the long-digit family up to ~5100 characters in both tiers",
+                       "the deterministic quote-run lines are up to 660 characters, the strip-marker family up to ~450 and the long-digit family up to "
+                       "~5100 characters in both tiers",
                        "syntactic nesting <= 40, of the raw text and of the text after template expansion (deeper nesting exhausts the interpreter "
                        "stack by construction and is excluded by the property): a RecursionError on an input whose expanded text nests "
                        "deeper is counted as excluded, not as a violation",
